@@ -130,3 +130,11 @@ package bpv7
 //@ opt inline true
 //@ assigns nothing
 //@ ensures result == EndpointID(*pnb)
+
+// govc:func (*ProphetBlock).GetPredictabilities property C19
+//@ opt inline true
+//@ assigns nothing
+//@ ensures ref(result) == ref(*pBlock)
+
+// A block with the PRoPHET type code carries a *ProphetBlock once that type is registered (NewProphet does so).
+// govc:spec prophetTyped(b Bundle) bool = forall j int :: 0 <= j && j < len(b.CanonicalBlocks) ==> (b.CanonicalBlocks[j].Value.BlockTypeCode() == 194 ==> is(b.CanonicalBlocks[j].Value, *ProphetBlock))
